@@ -45,17 +45,19 @@ struct pool_round {
     int nsub = 1;
     int stop_mode = 0;
     int stop_delay = 0;
-    std::promise<void> worker_stop_done;
     std::atomic<int> worker_stop_started{0};
     std::atomic<int> stop_returned{0};
-    std::atomic<int> worker_stop_job{0}; // PS_STOP_WORKER_AND_MAIN: 0 submitted, 1 running, 2 its stop() returned, 3 dropped without running
 };
-struct worker_stop_guard { // the stop job of PS_STOP_WORKER_AND_MAIN may be cancelled by the competing stop(): then it is dropped
-    pool_round *X;
-    explicit worker_stop_guard(pool_round *x) : X(x) {}
-    worker_stop_guard(worker_stop_guard &&o) noexcept : X(o.X) { o.X = nullptr; }
+// Handshake between a stop() that runs on one of the pool's own (then detached, never joined) threads and the coordinator that
+// destroys the round afterwards. The cells are process-wide (rounds are sequential): the detached thread's final release-store is its
+// last access to anything the coordinator may free, and the coordinator's acquire-load orders the destruction behind it.
+inline std::atomic<int> g_ws_job{0};  // 0 submitted, 1 running, 2 its stop() returned, 3 dropped without running
+struct worker_stop_guard { // the stop job may be cancelled by a competing stop(): then the closure is dropped without running
+    bool armed = true;
+    worker_stop_guard() = default;
+    worker_stop_guard(worker_stop_guard &&o) noexcept : armed(o.armed) { o.armed = false; }
     worker_stop_guard(const worker_stop_guard &) = delete;
-    ~worker_stop_guard() { if (X) { int e = 0; X->worker_stop_job.compare_exchange_strong(e, 3, std::memory_order_relaxed); } }
+    ~worker_stop_guard() { if (armed) { int e = 0; g_ws_job.compare_exchange_strong(e, 3, std::memory_order_acq_rel); g_ws_job.notify_all(); } }
 };
 // closure guard: counts destruction of the job closure (moved-from shells do not count)
 struct closure_guard {
@@ -185,6 +187,7 @@ inline void pool_mt(const vf::opts &o, vf::report &R, vf::team &T, uint64_t roun
                 desc += std::string(pk_name(j.kind)) + (j.throws ? " throwing, " : ", ");
             }
         }
+        g_ws_job.store(0, std::memory_order_relaxed);
         X.pool = new cocls::thread_pool((unsigned)nworkers);
         // thread roles: 0 = coordinator (stops in PS_STOP_MAIN), 1..nsub = submitters, nsub+1 = other stopper
         std::string plan = T.plan_by([&](int tid) -> std::pair<const int *, int> {
@@ -206,11 +209,12 @@ inline void pool_mt(const vf::opts &o, vf::report &R, vf::team &T, uint64_t roun
             } else if (tid == 0 && X.stop_mode == PS_STOP_WORKER_AND_MAIN) {
                 // stop() from one of the pool's own threads overlapping with stop() from an ordinary thread
                 for (int i = 0; i < X.stop_delay; i++) vf::cpu_relax();
-                X.pool->run_detached([&X, g = worker_stop_guard(&X)] {
+                X.pool->run_detached([&X, g = worker_stop_guard()]() mutable {
                     int e = 0;
-                    if (!X.worker_stop_job.compare_exchange_strong(e, 1, std::memory_order_relaxed)) return;
+                    if (!g_ws_job.compare_exchange_strong(e, 1, std::memory_order_acq_rel)) return;
                     X.pool->stop();
-                    X.worker_stop_job.store(2, std::memory_order_relaxed);
+                    g.armed = false;
+                    g_ws_job.store(2, std::memory_order_release); g_ws_job.notify_all(); // last access: the round may be destroyed from now on
                 });
                 for (int i = 0; i < (int)(rseed % 3000); i++) vf::cpu_relax();
                 X.pool->stop();
@@ -219,20 +223,20 @@ inline void pool_mt(const vf::opts &o, vf::report &R, vf::team &T, uint64_t roun
                 for (int i = 0; i < X.stop_delay; i++) vf::cpu_relax();
                 X.pool->run_detached([&X] {
                     X.worker_stop_started.store(1, std::memory_order_relaxed);
+                    g_ws_job.store(1, std::memory_order_relaxed);
                     X.pool->stop(); // stop() invoked from one of the pool's own threads
                     X.stop_returned.store(1, std::memory_order_relaxed);
-                    X.worker_stop_done.set_value();
+                    g_ws_job.store(2, std::memory_order_release); g_ws_job.notify_all(); // last access of this (detached) thread to the round
                 });
             }
         });
         // after the closing barrier: in worker-stop mode wait until the worker's stop() returned (blocking: watchdog covers a deadlock)
         if (X.stop_mode == PS_STOP_WORKER) {
             // the stop job itself may have been rejected/cancelled if ... it cannot: nobody else stops the pool in this mode
-            X.worker_stop_done.get_future().wait();
+            for (int v; (v = g_ws_job.load(std::memory_order_acquire)) < 2;) g_ws_job.wait(v, std::memory_order_acquire);
         }
         if (X.stop_mode == PS_STOP_WORKER_AND_MAIN) { // the worker's stop() must return as well (or its job was dropped by the other stop())
-            unsigned spins = 0;
-            while (X.worker_stop_job.load(std::memory_order_relaxed) < 2) { if (++spins < 4000) vf::cpu_relax(); else usleep(200); }
+            for (int v; (v = g_ws_job.load(std::memory_order_acquire)) < 2;) g_ws_job.wait(v, std::memory_order_acquire);
         }
         // stop() has returned and every submission call has returned: each job must be settled NOW, while the pool object is still
         // alive - work parked in a dead pool until its destructor runs is "forgotten with a waiter left hanging"
